@@ -64,7 +64,10 @@ class Adapter:
 
     def build(self, cfg):
         n = cfg["n"]
-        srcs = [event.Source(trigger=cfg["modes"][k], path=(f"s{k}",)) for k in range(n)]
+        style = (n + cfg["dw"] + cfg["al"] + len(cfg["attach"])) % 3       # sources are told apart by identity, not by name
+        srcs = [event.Source(trigger=cfg["modes"][k], path=(f"s{k}",)) if style == 0 else
+                event.Source(trigger=cfg["modes"][k]) if style == 1 else
+                event.Source(trigger=cfg["modes"][k], path=("dev", "irq")) for k in range(n)]
         em = event.EventMap()
         for s in srcs:
             em.add(s)
